@@ -41,9 +41,6 @@ func FuzzEval(f *testing.F) {
 			return
 		}
 		c.Expr, c.Input = gen.BoundCase(c.Expr, gen.BoundInput(c.In, c.Input))
-		if (c.In == "yaml") && !c.NullIn && hx.YAMLCyclic(c.Input) {
-			return // the open cyclic-alias finding, excluded by construction (the rapid shards judge it through the binary)
-		}
 		v := check(c)
 		if v.Status == hx.Violates && !hx.IsKnown(v.Sig) {
 			dir := filepath.Join(hx.VerifDir, "replays", "C11")
